@@ -51,6 +51,10 @@ pub enum Pattern {
     Random,
     /// dense releases but random execution times / NP placements
     DenseRandomExec,
+    /// all tasks dense from the common start, except task `task`, whose dense sequence starts
+    /// `shift` slots later (EDF: aligns its absolute deadline with a deadline of another task);
+    /// `blocker` (if any) starts one slot before the common start
+    Shifted { task: usize, shift: u64, blocker: Option<usize> },
 }
 
 pub const T0_MARGIN: u64 = 2;
@@ -74,17 +78,27 @@ pub fn make_plan(
         let (mode, start) = match pattern {
             Pattern::Synchronous | Pattern::DenseRandomExec => (SeqMode::Dense, t0),
             Pattern::Blocked { blocker } => (SeqMode::Dense, if ti == blocker { t0 - 1 } else { t0 }),
-            Pattern::Random => (SeqMode::Random, t0 - rng.range(0, 1) + rng.range(0, 3)),
+            Pattern::Shifted { task, shift, blocker } => (
+                SeqMode::Dense,
+                if ti == task {
+                    t0 + shift
+                } else if Some(ti) == blocker {
+                    t0 - 1
+                } else {
+                    t0
+                },
+            ),
+            Pattern::Random => (SeqMode::Random, t0 - rng.range(0, 1) + if rng.chance(1, 2) { rng.range(0, 3) } else { rng.range(0, 40) }),
         };
         let mut per_comp = vec![];
         let mut all: Vec<u64> = vec![];
         for c in &comps {
-            let seq = c.sequence(rng, mode, start, horizon, 400);
+            let seq = c.sequence(rng, mode, start, horizon, 3000);
             all.extend(seq.iter().copied());
             per_comp.push(seq);
         }
         all.sort_unstable();
-        let full_cost = matches!(pattern, Pattern::Synchronous | Pattern::Blocked { .. });
+        let full_cost = matches!(pattern, Pattern::Synchronous | Pattern::Blocked { .. } | Pattern::Shifted { .. });
         let mut tj = vec![];
         for r in all {
             let (exec, segs) = match pre {
